@@ -59,3 +59,314 @@ reg('C21', level='model_checking', runs=c21_runs, quick_budget_s=150, thorough_b
     design_ref='DESIGN.md section 4, C21', assumptions=MC_ASSUME,
     rule='one evaluation = one complete execution of a harness configuration under one schedule; distinct_nontrivial = distinct scheduler states (reads-from history hashes) at which more than one continuation existed',
     guards=[need_outcomes(1)])
+
+
+# ---------------------------------------------------------------------------------------------- C22 / C23
+def _progs(alphabet, maxlen):
+    out = []
+    for n in range(1, maxlen + 1):
+        out += [''.join(t) for t in __import__('itertools').product(alphabet, repeat=n)]
+    return out
+
+
+def _rw_ok(progs):
+    """documented contract: with an upgrader (U) no other thread may lock for write"""
+    ups = sum(p.count('U') > 0 for p in progs)
+    if ups == 0:
+        return True
+    if ups > 1:
+        return False
+    for p in progs:
+        if 'U' in p:
+            if any(c in p for c in 'WwD'):
+                return False
+        elif any(c in p for c in 'WwD'):
+            return False
+    return True
+
+
+def c22_runs(tier):
+    runs = []
+    alpha = 'WwRrUD'
+    seen = set()
+
+    def add(progs, bound, mode='plain', budget=30):
+        key = (tuple(sorted(progs)), bound, mode)
+        if key in seen or not _rw_ok(progs):
+            return
+        seen.add(key)
+        params = {'t%d' % i: p for i, p in enumerate(progs)}
+        runs.append(McRun('c22_rwlock', 'rwlock', params, bound=bound, mode=mode, budget=budget))
+    one = _progs(alpha, 1)
+    two = _progs(alpha, 2)
+    if tier == 'quick':
+        # 2 threads: every pair of programs of length <= 2 vs length 1, bound 2; 3 threads single sections, bound 2
+        for a in one + two:
+            for b in one:
+                add([a, b], 2)
+        for a in one:
+            for b in one:
+                for c in one:
+                    add([a, b, c], 2)
+    else:
+        for a in one + two:
+            for b in one + two:
+                add([a, b], 3)
+        for a in one + two:
+            for b in one:
+                for c in one:
+                    add([a, b, c], 2)
+        for a in 'WRrw':
+            for b in 'WRw':
+                for c in 'WR':
+                    for d in 'Rr':
+                        add([a, b, c, d], 1)
+    add(['W', 'R', 'w'], 2, mode='tsan')
+    add(['U', 'R', 'r'], 2, mode='tsan')
+    add(['D', 'W', 'r'], 2, mode='asan')
+    return runs
+
+
+reg('C22', level='model_checking', runs=c22_runs, quick_budget_s=200, thorough_budget_s=1200,
+    technique='stateless model checking of the real RWLock: all interleavings up to a deviation bound of 2-4 threads running bounded sequences of critical sections, occupancy oracle',
+    level_text='2 threads x every pair of section programs (<=2 sections vs 1 section quick; <=2 vs <=2 at bound 3 thorough), 3 threads x single sections, 4 threads at bound 1 (thorough), over {lock, try_lock, lock_shared, try_lock_shared, lock_shared->lock_upgrade (single upgrader, no other writer, as documented), lock->lock_downgrade}; every interleaving with <=2 deviations (3 thorough). Oracle: occupancy counters inside the sections (writer alone, no reader with a writer, a successful try never conflicts), every blocking acquire returns (no deadlock/livelock verdict), lock word 0 at the end.',
+    level_note='SC interleavings; the lock never blocks in the kernel except the writer waiting for reader drain (futex modelled). TSan/ASan legs on three shapes.',
+    design_ref='DESIGN.md section 4, C22', assumptions=MC_ASSUME,
+    rule='one evaluation = one complete execution of one program tuple under one schedule; distinct_nontrivial = distinct scheduler states with more than one continuation',
+    guards=[need_outcomes(2)])
+
+
+def c23_runs(tier):
+    runs = []
+    seen = set()
+
+    def add(n, progs, idx, bound, mode='plain'):
+        key = (n, tuple(progs), tuple(idx), bound, mode)
+        if key in seen:
+            return
+        seen.add(key)
+        params = {'t%d' % i: p for i, p in enumerate(progs)}
+        params['n'] = n
+        params['idx'] = '.'.join(str(i) for i in idx)
+        runs.append(McRun('c22_rwlock', 'drwlock', params, bound=bound, mode=mode, budget=30))
+    writers = ['W', 'w', 'Ww', 'wW', 'ww'] if tier != 'quick' else ['W', 'w', 'wW']
+    readers = ['R', 'r', 'Rr'] if tier != 'quick' else ['R', 'r']
+    for n in (1, 2):
+        slotsets = [(0, 0, 0)] if n == 1 else [(0, 0, 1), (0, 1, 0), (0, 1, 1), (0, 0, 0)]
+        for w1 in writers:
+            for w2 in (['W', 'w'] if tier == 'quick' else writers):
+                for r in readers:
+                    for idx in slotsets:
+                        add(n, [w1, w2, r], idx, 2 if tier == 'quick' else 3)
+            for r1 in readers:
+                for r2 in readers:
+                    for idx in slotsets:
+                        add(n, [w1, r1, r2], idx, 2)
+    # N=4: writers against readers on distinct slots, bound 1 (2 in thorough); N=16 bound 1 thorough only
+    for w1 in ('W', 'w'):
+        for w2 in ('W', 'w'):
+            add(4, [w1, w2, 'R', 'r'], (0, 0, 1, 3), 1 if tier == 'quick' else 2)
+    if tier != 'quick':
+        for w1 in ('W', 'w'):
+            add(16, [w1, 'w', 'R', 'r'], (0, 0, 5, 15), 1)
+    add(2, ['W', 'w', 'R'], (0, 0, 1), 2, mode='tsan')
+    add(2, ['w', 'W', 'r'], (0, 1, 1), 2, mode='asan')
+    return runs
+
+
+reg('C23', level='model_checking', runs=c23_runs, quick_budget_s=200, thorough_budget_s=1200,
+    technique='stateless model checking of the real DistributedRWLockImpl<N> with explicit slot indices: all interleavings up to a deviation bound, occupancy oracle, slot words inspected afterwards',
+    level_text='N in {1,2} with every reader-to-slot assignment (up to symmetry) of 3 threads mixing blocking and try writers with readers at bound 2 (3 thorough for two writers + reader), N=4 with 4 threads at bound 1 (2 thorough), N=16 at bound 1 (thorough). Oracle as C22 plus: after all sections ended every slot word is 0, so a failed try_lock left no trace.',
+    level_note='the harness drives the Impl class with explicit slot indices (the public class derives the index from threadId(), which is covered by C45); SC interleavings; TSan/ASan legs.',
+    design_ref='DESIGN.md section 4, C23', assumptions=MC_ASSUME,
+    rule='one evaluation = one complete execution of one program tuple x slot assignment under one schedule; distinct_nontrivial = distinct scheduler states with more than one continuation',
+    guards=[need_outcomes(2)])
+
+
+# ---------------------------------------------------------------------------------------------- C34 / C35 / C36
+import itertools as _it
+
+
+def _seqs(alpha, maxlen, minlen=1):
+    out = []
+    for n in range(minlen, maxlen + 1):
+        out += [''.join(t) for t in _it.product(alpha, repeat=n)]
+    return out
+
+
+def _has(p, chars):
+    return any(c in p for c in chars)
+
+
+def c34_runs(tier):
+    runs, seen = [], set()
+
+    def add(cap, rnd, progs, bound, mode='plain'):
+        progs = list(progs)
+        key = (cap, rnd, tuple(sorted(progs)), bound, mode)
+        if key in seen:
+            return
+        seen.add(key)
+        if not any(_has(p, 'pceb') for p in progs) or not any(_has(p, 'oOi') for p in progs):
+            return  # nothing can collide
+        params = {'t%d' % i: p for i, p in enumerate(progs)}
+        params.update(cap=cap, round=rnd)
+        runs.append(McRun('c34_rings', 'mpmc', params, bound=bound, mode=mode, budget=40))
+    small = _seqs(['p', 'b2', 'o', 'O'], 2)
+    full1 = ['p', 'c', 'e', 'b2', 'b3', 'o', 'O', 'i']
+    if tier == 'quick':
+        for a, b in _it.combinations_with_replacement(small, 2):
+            add(2, 1, [a, b], 2)
+        for a, b, c in _it.combinations_with_replacement(full1, 3):
+            add(3, 0, [a, b, c], 2)
+    else:
+        mid = _seqs(['p', 'e', 'b2', 'o', 'O', 'i'], 2)
+        for a, b in _it.combinations_with_replacement(mid, 2):
+            add(2, 1, [a, b], 3)
+        for cap, rnd in ((3, 0), (3, 1), (4, 1)):
+            for a, b in _it.combinations_with_replacement(small, 2):
+                add(cap, rnd, [a, b], 3)
+        for a, b, c in _it.combinations_with_replacement(full1, 3):
+            add(2, 1, [a, b, c], 2)
+            add(3, 0, [a, b, c], 2)
+        for a, b, c, d in _it.combinations_with_replacement(['p', 'b2', 'o', 'O'], 4):
+            add(2, 1, [a, b, c, d], 1)
+    add(2, 1, ['pb2', 'oO', 'ip'], 1, mode='tsan')
+    add(3, 0, ['b3e', 'oi', 'cO'], 1, mode='asan')
+    return runs
+
+
+reg('C34', level='model_checking', runs=c34_runs, quick_budget_s=240, thorough_budget_s=1500,
+    technique='stateless model checking of the real MpmcRingBuffer with lifetime-tracked tagged elements: all interleavings up to a deviation bound, exactly-once / per-producer FIFO / quiescent-state oracle',
+    level_text='2 threads x every pair of programs of <=2 operations over {try_push, try_push_batch(2), try_pop(T&), try_pop()} on capacity 2, and 3 threads x every triple of single operations over the full API (push rvalue/const&, emplace, batch 2/3, the three pops) on exact capacity 3, all interleavings with <=2 deviations (thorough: longer alphabets at bound 3, capacities 2/3/3-rounded/4, 4 threads at bound 1). Oracle: every returned tag was pushed successfully and is returned once; each consumer sees each producer in order; at quiescence size/empty/full agree with the bookkeeping, a drain pops exactly the remaining elements in per-producer order, then pop fails; refill succeeds exactly capacity() times; constructions and destructions of elements balance (nothing constructed over a live element).',
+    level_note='SC interleavings; occupancy above capacity is observed through the lifetime registry (construction over a live slot) and the quiescent refill count rather than by a mid-flight counter.',
+    design_ref='DESIGN.md section 4, C34', assumptions=MC_ASSUME,
+    rule='one evaluation = one complete execution of one program tuple under one schedule; distinct_nontrivial = distinct scheduler states with more than one continuation',
+    guards=[need_outcomes(3)])
+
+
+def c35_runs(tier):
+    runs, seen = [], set()
+
+    def add(cap, rnd, prod, cons, bound, mode='plain'):
+        key = (cap, rnd, prod, cons, bound, mode)
+        if key in seen:
+            return
+        seen.add(key)
+        runs.append(McRun('c34_rings', 'spsc', dict(cap=cap, round=rnd, t0=prod, t1=cons), bound=bound, mode=mode, budget=30))
+    if tier == 'quick':
+        prods = _seqs(['p', 'e', 'b2'], 2, 2) + ['ppp', 'pb2p', 'cb3', 'b3c']
+        conss = _seqs(['o', 'O', 'B2'], 2, 2) + ['ooo', 'oB2o', 'iB3', 'B3i']
+        for cap, rnd in ((1, 1), (2, 1)):
+            for p in prods:
+                for c in conss:
+                    add(cap, rnd, p, c, 3)
+        for p in ('b3pc', 'pb2e', 'ppp'):
+            for c in ('OoB3', 'oB2i', 'ooo'):
+                add(3, 0, p, c, 3)
+    else:
+        prods = _seqs(['p', 'c', 'e', 'b2', 'b3'], 2, 1) + ['ppp', 'pb2p', 'b2pp', 'eb3c', 'b3pc', 'pb2e']
+        conss = _seqs(['o', 'O', 'i', 'B2', 'B3'], 2, 1) + ['ooo', 'oB2o', 'B2oo', 'OiB3', 'OoB3', 'oB2i']
+        for cap, rnd in ((1, 1), (2, 1), (3, 0)):
+            for p in prods:
+                for c in conss:
+                    add(cap, rnd, p, c, 4)
+        for cap, rnd in ((3, 1), (4, 1)):
+            for p in prods[-8:]:
+                for c in conss[-8:]:
+                    add(cap, rnd, p, c, 4)
+    add(2, 1, 'pb2e', 'oB2i', 2, mode='tsan')
+    add(3, 0, 'b3pc', 'OoB3', 2, mode='asan')
+    return runs
+
+
+reg('C35', level='model_checking', runs=c35_runs, quick_budget_s=240, thorough_budget_s=1500,
+    technique='stateless model checking of the real SPSCRingBuffer with lifetime-tracked tagged elements: all interleavings of one producer and one consumer up to a deviation bound, strict-FIFO and acceptance oracle',
+    level_text='producer programs x consumer programs of 2-3 operations (single and batch forms, every pop form) on capacities 1, 2 and exact 3, every interleaving with <=3 deviations (thorough: all programs of <=3 operations, capacities 1,2,3,3-rounded,4, bound 4). Oracle: pops return tags 0,1,2,... exactly; a push may be refused only if the buffer could have been full during the call and accepted only if it was not full throughout (bounds from completed/started operations of the other side), same for pops; quiescent size/empty/full, drain and refill; element lifetimes balance.',
+    level_note='SC interleavings; "as observed by that thread" is evaluated with conservative bounds (operations of the peer that completed before the call started / started before it ended).',
+    design_ref='DESIGN.md section 4, C35', assumptions=MC_ASSUME,
+    rule='one evaluation = one complete execution of one producer/consumer program pair under one schedule; distinct_nontrivial = distinct scheduler states with more than one continuation',
+    guards=[need_outcomes(3)])
+
+
+def c36_runs(tier):
+    runs, seen = [], set()
+
+    def add(cap, owner, stealers, bound, mode='plain'):
+        key = (cap, owner, tuple(sorted(stealers)), bound, mode)
+        if key in seen:
+            return
+        seen.add(key)
+        params = dict(cap=cap, t0=owner)
+        for i, s in enumerate(stealers):
+            params['t%d' % (i + 1)] = s
+        runs.append(McRun('c34_rings', 'deque', params, bound=bound, mode=mode, budget=60))
+    owners_q = ['po', 'ppo', 'ppoo', 'popo', 'pppo', 'pio', 'ppio']
+    if tier == 'quick':
+        for cap in (1, 2):
+            for o in owners_q:
+                for st in (['s'], ['S'], ['ss'], ['s', 's'], ['s', 'S']):
+                    add(cap, o, st, 3)
+        for o in ('pppo', 'ppop'):
+            add(4, o, ['ss'], 3)
+    else:
+        owners = [o for o in _seqs(['p', 'o', 'i'], 4, 2) if 'p' in o and _has(o, 'oi')]
+        for cap in (1, 2, 4):
+            for o in owners:
+                for st in (['s'], ['ss'], ['s', 'S']):
+                    add(cap, o, st, 4 if len(st) == 1 else 3)
+        for o in owners_q:
+            add(2, o, ['s', 's', 'S'], 2)
+            add(4, o, ['ss', 's', 'S'], 1)
+    add(2, 'ppoo', ['ss', 'S'], 1, mode='tsan')
+    add(2, 'ppio', ['s', 'S'], 2, mode='asan')
+    return runs
+
+
+reg('C36', level='model_checking', runs=c36_runs, quick_budget_s=240, thorough_budget_s=1500,
+    technique='stateless model checking of the real ChaseLevDeque: all interleavings of an owner history with 1-3 stealers up to a deviation bound, exactly-once and order oracle',
+    level_text='owner histories of 2-4 push/pop/pop_into operations against 1-2 stealers with 1-2 steals each on capacities 1, 2 (and 4), every interleaving with <=3 deviations including the last-element race (thorough: all owner histories of length <=4 over {push,pop,pop_into}, bound 4 against one stealer, 3 stealers at bound 1-2). Oracle: every returned value was pushed and is returned once; an owner pop returns the newest element of the owner-side model; each stealer receives increasing (oldest-first) values; quiescent size/empty, a quiescent steal returns the oldest remaining, pops the rest newest-first, then both fail; nothing is lost.',
+    level_note='SC interleavings: the seq_cst fences the algorithm needs under weaker memory models are not exercised by this check (TSan leg covers data races only).',
+    design_ref='DESIGN.md section 4, C36', assumptions=MC_ASSUME,
+    rule='one evaluation = one complete execution of one owner history x stealer set under one schedule; distinct_nontrivial = distinct scheduler states with more than one continuation',
+    guards=[need_outcomes(2)])
+
+
+# ---------------------------------------------------------------------------------------------- C24
+def c24_runs(tier):
+    runs, seen = [], set()
+
+    def add(progs, bound, mode='plain'):
+        key = (tuple(progs), bound, mode)
+        if key in seen:
+            return
+        seen.add(key)
+        runs.append(McRun('c24_async_request', 'async_request', {'t%d' % i: p for i, p in enumerate(progs)}, bound=bound, mode=mode, budget=40))
+    cons = ['rg', 'rgg', 'rgrg', 'grg', 'rrg']
+    prods = ['e', 'ee', 'ue', 'eue']
+    b = 2 if tier == 'quick' else 3
+    for c in cons:
+        for p in prods:
+            add([c, p], b + 1)
+            for c2 in (['g', 'rg', 'gg'] if tier == 'quick' else ['g', 'rg', 'gg', 'grg', 'r']):
+                add([c, p, c2], b)
+                add([c, p, c2], 1, mode='tsan')
+            for p2 in (['e'] if tier == 'quick' else ['e', 'ee', 'ue']):
+                add([c, p, p2], b)
+    if tier != 'quick':
+        for c in ('rg', 'rgg'):
+            for p in ('e', 'ee'):
+                add([c, p, 'gg', 'e'], 2)
+                add([c, p, 'rg', 'ue'], 2)
+                add([c, p, 'g', 'e'], 2, mode='tsan')
+    add(['rgrg', 'ee', 'gg'], 2, mode='asan')
+    return runs
+
+
+reg('C24', level='model_checking', runs=c24_runs, quick_budget_s=240, thorough_budget_s=1200,
+    technique='stateless model checking of the real AsyncRequest with 1-2 consumers and 1-2 producers, plus the same schedules under ThreadSanitizer (the multi-consumer failure is a race on the payload)',
+    level_text='consumer programs over {requestUpdate, getUpdate} x producer programs over {updateRequested, tryEmplaceUpdate(unique tag)}, with a second consumer or a second producer, every interleaving with <=2 deviations (3 for two threads; thorough one more and 4 threads), and the three-thread shapes again under TSan. Oracle: a returned tag was emplaced successfully and is returned once; the number of successful emplaces never exceeds the requests started nor getUpdate calls started + 1; payload lifetimes balance; no TSan report.',
+    level_note='SC interleavings at atomic operations: the duplicate-delivery failure of a multi-consumer getUpdate shows up at this granularity only as a data race on the payload, which is why the TSan leg is part of this check.',
+    design_ref='DESIGN.md section 4, C24', assumptions=MC_ASSUME,
+    rule='one evaluation = one complete execution of one program tuple under one schedule; distinct_nontrivial = distinct scheduler states with more than one continuation',
+    guards=[need_outcomes(3)])
